@@ -53,7 +53,10 @@ func Run(o *hx.Opts, w *lineio.Writer) error {
 	for i := 0; i < o.N(24, 200); i++ {
 		chaos = append(chaos, StuckWrite(r, mp, i))
 	}
-	return c10.RunIsolated("C11", o, w, chaos, 10, 30*time.Second)
+	for i := 0; i < o.N(8, 40); i++ {
+		chaos = append(chaos, CloseRace(r, mp, i, o.N(2500, 10000)))
+	}
+	return c10.RunIsolated("C11", o, w, chaos, 10, 60*time.Second)
 }
 
 func dumpCorpus(dir string, mp int) error {
